@@ -534,10 +534,14 @@ def intrinsics():
         if all(isinstance(x, int) and not isinstance(x, bool) for x in xs):
             return xs
         raise A.Unsupported("integer operation on %r" % (xs,))
-    # floats are opaque symbols; a symbol may carry props["fclass"] in {"finite", "nan", "inf", "-inf"} (default finite)
-    I["core::f64::<impl f64>::is_finite"] = lambda ip, n, a: getattr(d(a[0]), "props", {}).get("fclass", "finite") == "finite"
-    I["core::f64::<impl f64>::is_nan"] = lambda ip, n, a: getattr(d(a[0]), "props", {}).get("fclass", "finite") == "nan"
-    I["core::f64::<impl f64>::is_infinite"] = lambda ip, n, a: getattr(d(a[0]), "props", {}).get("fclass", "finite") in ("inf", "-inf")
+    # floats are opaque symbols; a symbol may carry props["fclass"] in {"finite" (normal, non-zero), "zero", "subnormal", "nan", "inf",
+    # "-inf"} (default finite)
+    fcl = lambda x: getattr(d(x), "props", {}).get("fclass", "finite")
+    I["core::f64::<impl f64>::is_finite"] = lambda ip, n, a: fcl(a[0]) in ("finite", "zero", "subnormal")
+    I["core::f64::<impl f64>::is_normal"] = lambda ip, n, a: fcl(a[0]) == "finite"
+    I["core::f64::<impl f64>::is_subnormal"] = lambda ip, n, a: fcl(a[0]) == "subnormal"
+    I["core::f64::<impl f64>::is_nan"] = lambda ip, n, a: fcl(a[0]) == "nan"
+    I["core::f64::<impl f64>::is_infinite"] = lambda ip, n, a: fcl(a[0]) in ("inf", "-inf")
     I["core::cmp::Ord::max"] = lambda ip, n, a: max(_ints(a))
     I["core::cmp::Ord::min"] = lambda ip, n, a: min(_ints(a))
     for t in ("usize", "u64", "u32", "i64"):
@@ -653,6 +657,8 @@ def _display(v):
         return "true" if v else "false"
     if isinstance(v, (str, int)):
         return str(v)
+    if isinstance(v, A.Sym) and (v.ty == "f64" or "fclass" in (v.props or {})):
+        return "<%s>" % v.name           # an abstract float in a message: its class name stands for the digits
     raise A.Unsupported("Display of %r" % (v,))
 
 
